@@ -190,7 +190,10 @@ def run_tlc(module, cfg, workers=None, timeout=600, simulate=None, depth=None, e
         modfile = os.path.basename(modpath)
         cfgfile = os.path.basename(cfg)
         w = workers or NCPU
-        cmd = ["java", "-XX:+UseParallelGC", "-Xss64m"]
+        # TLC unpacks its standard modules into java.io.tmpdir and leaves them there: keep that inside this run's scratch
+        jtmp = os.path.join(d, "jtmp")
+        os.makedirs(jtmp)
+        cmd = ["java", "-XX:+UseParallelGC", "-Xss64m", "-Djava.io.tmpdir=" + jtmp]
         if heap:
             cmd.append("-Xmx" + heap)
         if dfs:
